@@ -31,7 +31,7 @@ _enum_cache = {}
 ENUM_ROUNDS = {'quick': 5, 'thorough': 60}
 
 
-def beh_script(kind, proto, rng=None, cutk=None):
+def beh_script(kind, proto, rng=None, cutk=None, compress=None):
     st = {'mode': 'reply', 'json': json.dumps(
         {'version': {'name': 'sim', 'protocol': proto},
          'description': {'text': 'x'}})}
@@ -56,6 +56,11 @@ def beh_script(kind, proto, rng=None, cutk=None):
         # answer the client's FIN by closing
         b['play'] = [['ka', 1], ['raw', '20010203']]
         b['ignore_fin'] = True
+    if compress is not None and kind in ('long', 'pdisc', 'rst', 'cut'):
+        b['login'] = [['compress', compress]] + b['login']
+        b['compressed'] = True
+        if kind == 'cut':
+            b['cut'] = (b['cut'] or 0) + 40     # fail after login completed
     return b
 
 
@@ -203,11 +208,18 @@ def scenario_for(seed, index, tier):
 
 def make(proto, allowed, threads, behs, refuse, relisten, rehandler, rng,
          enumerated=False):
-    conns = [beh_script(k, proto, cutk=rng.randrange(0, 40)) for k in behs]
+    conns = [beh_script(k, proto, cutk=rng.randrange(0, 40),
+                        compress=(rng.choice([0, 64])
+                                  if (not enumerated and rng.random() < 0.3)
+                                  else None))
+             for k in behs]
+    qx = 0 if enumerated else rng.choice([0, 0, 1, 3])
+    if any(c.get('compressed') for c in conns):
+        qx = 0      # early play packets would precede the framing switch
     return {
         'proto': proto, 'allowed': allowed, 'threads': threads,
         'behs': behs, 'relisten': relisten, 'rehandler': rehandler,
-        'queue_extra': 0 if enumerated else rng.choice([0, 0, 1, 3]),
+        'queue_extra': qx,
         'enumerated': enumerated,
         'server': {'conns': conns},
         'net': {'refuse': refuse, 'latency_us': rng.choice([50, 200, 5000]),
@@ -453,6 +465,18 @@ def execute(scenario, tape):
 
         def coord():
             w.wait_until(lambda: st['done_threads'] == n, budget=False)
+            # a session started from a listener / exception handler gets the
+            # chance to come up before everything is torn down
+            cb = [r for r in st['recs'] if r.op == 'connect' and
+                  r.by in ('handler', 'listener') and r.r is not None
+                  and r.r.ok]
+            if cb and w.net.conns:
+                tcp = w.net.conns[-1]
+                w.wait_until(lambda: quiet() or (
+                    tcp.app is not None and (tcp.app.reached_play or
+                                             tcp.app.fin_seen or
+                                             tcp.app.state == 'dead')),
+                    budget=True)
             st['final_from'] = sim.seq
             rounds = 0
             for rounds in range(6):
@@ -766,6 +790,40 @@ def check(scenario, w, st, res):
             bad.update(behs=behs, errs=st['errs'][-2:],
                        handshakes=[a.handshake for a in new])
             V.append(('C16/accepted-connect-unusable:%s' % who, bad))
+    # ---- O8: a connect() made from inside a listener / exception handler
+    # and answered by a healthy server yields a usable session
+    final_from = st.get('final_from', 10**12)
+    for r in calls:
+        if r.op != 'connect' or r.by not in ('handler', 'listener') or \
+                not r.r.ok:
+            continue
+        att = [d for _s, k_, d in r.attempts if k_ == 'connect']
+        if len(att) != 1 or any(k_ == 'connect-refused'
+                                for _s, k_, _d in r.attempts):
+            continue
+        idx = att[0][0]
+        if idx >= len(w.server.apps) or len(scenario['allowed']) != 1:
+            continue
+        app = w.server.apps[idx]
+        if app.beh.get('kind') not in ('long', 'pdisc'):
+            continue
+        others = [o for o in mutating if o is not r and o.r.inv > r.r.inv
+                  and o.r.inv < final_from and not (
+                      o.op in ('connect', 'status') and not o.r.ok and
+                      type(o.r.exc).__name__ == 'InvalidState')]
+        conc = [o for o in mutating if o is not r and o.r.inv < r.r.inv and
+                (o.r.ret or 10**12) > r.r.inv]
+        if others or conc:
+            continue
+        ob()
+        res.probes['callback-reconnect-checked'] = \
+            res.probes.get('callback-reconnect-checked', 0) + 1
+        if not app.reached_play:
+            V.append(('C16/reconnect-from-callback-unusable',
+                      {'by': r.by, 'conn': idx,
+                       'server_errors': app.errors[:2],
+                       'client_errors': st['errs'][-2:]}))
+            break
     # ---- O2: disconnect leads to termination
     ob()
     if not st.get('final_quiet'):
